@@ -3,6 +3,7 @@ package main
 // C09: methods, embedding, interfaces, type switches — the structural clauses of the lookup and dispatch code.
 
 import (
+	"go/constant"
 	"fmt"
 	"go/ast"
 	"go/token"
@@ -539,6 +540,7 @@ func init() {
 		Explanation: "Decided (a few structural clauses of the selection and dispatch machinery; the resolution algorithms as a whole are not): L1 depth-ordered lookup: the breadth-first loops of xtype.FieldByName and xtype.methodByName go one embedding level deeper only while nothing was found, examine the whole level without early exit, add up the matches of every element (so ambiguity at the shallowest depth is seen), keep the first match and queue the embedded fields of an element only when it had no match; fieldByName examines every field of a struct, counts every match and queues an embedded field only when it does not match and nothing matched yet; the work list of the next level is a new slice (W1, shared with C36); " +
 			"L2 type switch: the map used for fast dispatch is filled only by typecaseHelper.add and only while every earlier case was a concrete type (the flag starts true and is only ever cleared), typeswitchGotoMap builds its table from that initial segment only, abandons it when two case types share a reflect type, and falls through to the sequential comparison for a type not in the table; the jump into the default clause is emitted after all cases, and a default clause met sequentially skips itself; " +
 			"L4 conversion to an interpreted interface rejects a non-implementing type first, binds every method 0..NumMethod()-1 at its own index to the concrete method of the same name, and reports both a missing and an ambiguous method. " +
+			"L5 wherever the depth of a field (len(StructField.Index)) is compared with the depth of a method (len(Method.FieldIndex)) the method side carries exactly one more, the two paths being reported in different units; L6 every run-time test of a type assertion that compares the dynamic reflect type with the asserted one also tests the interpreter-level dynamic type in the same condition (interpreted named types share reflect types). " +
 			"Not decided: which field or method a selector resolves to in a given program, method sets of pointer vs. value receivers, method values and expressions, type assertion outcomes, wrapper methods for embedded fields, compiled interfaces (C11).",
 		Assumptions: []string{"go/types method sets for the types loaded from the import tables"},
 		Rules: []func(*Ctx){func(c *Ctx) {
@@ -546,6 +548,8 @@ func init() {
 			ruleWorklistHandover(c, "W1-worklist-handover", "xreflect", "lookup.go")
 			ruleTypeSwitchDispatch(c, "L2-typeswitch-dispatch")
 			ruleEmulatedInterfaceBinding(c, "L4-interface-binding")
+			ruleDepthUnits(c, "L5-depth-units")
+			ruleTwoLevelTypeTest(c, "L6-two-level-type-test")
 		}},
 		Technique: "AST/type-resolved custom analysis: loop-shape and guard checks of the breadth-first lookups, monotone-flag and ownership checks of the type-switch dispatch table, call-order checks",
 		Mutants: []Mutant{
@@ -554,8 +558,229 @@ func init() {
 			{Name: "ambiguous-fields-not-counted", File: "xreflect/lookup.go", Old: "\t\t\t\t// debugf(\"fieldByName: %d-th field of <%v> matches: %#v\", i, t.rtype, field)\n\t\t\t}\n\t\t\tcount++", New: "\t\t\t\t// debugf(\"fieldByName: %d-th field of <%v> matches: %#v\", i, t.rtype, field)\n\t\t\t\tcount++\n\t\t\t}"},
 			{Name: "goto-map-over-all-cases", File: "fast/switch_type.go", Old: "\t} else if seen.AllConcrete {\n\t\tseen.ConcreteMap.Set(gtype, entry)", New: "\t} else {\n\t\tseen.ConcreteMap.Set(gtype, entry)", Canary: true},
 			{Name: "goto-map-misses-fall-to-end", File: "fast/switch_type.go", Old: "\t\t} else {\n\t\t\tenv.IP++\n\t\t}\n\t\treturn env.Code[env.IP], env\n\t}\n\tc.Code.List[ip] = stmt", New: "\t\t} else {\n\t\t\tenv.IP += 2\n\t\t}\n\t\treturn env.Code[env.IP], env\n\t}\n\tc.Code.List[ip] = stmt"},
+			{Name: "method-depth-in-field-units", File: "fast/selector.go", Old: "mtddepth := len(mtd.FieldIndex) + 1", New: "mtddepth := len(mtd.FieldIndex)"},
+			{Name: "typeassert2-reflect-level-only", File: "fast/type.go", Old: "\t\t\trt := rtypeof(v, t)\n\t\t\tif rt != rtout || (t != nil && !t.IdenticalTo(tout)) {\n\t\t\t\treturn fail[0], fail", New: "\t\t\tif rtypeof(v, t) != rtout {\n\t\t\t\treturn fail[0], fail", Nth: 1},
 			{Name: "interface-method-bound-by-first-name", File: "fast/interface.go", Old: "mtdin, count := tsrc.MethodByName(mtdout.Name, c.FileComp().Path)", New: "mtdin, count := tsrc.MethodByName(tout.Method(0).Name, c.FileComp().Path)"},
 			{Name: "ambiguous-method-accepted", File: "fast/interface.go", Old: "\t\t} else if count > 1 {\n\t\t\tc.Errorf(\"cannot convert from <%v> to <%v>: multiple methods match %s %s\", tin, tout, mtdout.Name, mtdout.Type)\n", New: ""},
 		},
 	})
+}
+
+// L5 — one unit for the depth of a field and of a method. A selector x.f picks the field or method found at the
+// shallowest embedding depth and is ambiguous when both exist at the same depth. xreflect reports a field
+// with its full index path (a direct field has len(Index) == 1) and a method with the path of the embedded
+// fields only (a method of the type itself has len(FieldIndex) == 0): wherever the two are compared, the
+// method side must be one larger in offset: len(FieldIndex)+1+k against len(Index)+k.
+func ruleDepthUnits(c *Ctx, rule string) {
+	n := 0
+	for _, short := range []string{"fast", "xreflect"} {
+		pk := c.P.Pkg(short)
+		if pk == nil {
+			continue
+		}
+		info := pk.TypesInfo
+		for _, fd := range c.P.FuncsOf(short) {
+			if fd.Body == nil {
+				continue
+			}
+			var di *defIndex
+			var lin func(e ast.Expr, depth int) (string, int, bool)
+			lin = func(e ast.Expr, depth int) (string, int, bool) {
+				if depth > 6 {
+					return "", 0, false
+				}
+				switch x := unparen(e).(type) {
+				case *ast.Ident:
+					if di == nil {
+						di = buildDefIndex(info, fd)
+					}
+					if o := info.Uses[x]; o != nil {
+						if d := di.single(o); d != nil {
+							return lin(d, depth+1)
+						}
+					}
+				case *ast.CallExpr:
+					if id := identOf(x.Fun); id != nil && id.Name == "len" && len(x.Args) == 1 {
+						if _, isB := info.Uses[id].(*types.Builtin); isB {
+							if s, ok := unparen(x.Args[0]).(*ast.SelectorExpr); ok {
+								t := info.TypeOf(s.X)
+								if s.Sel.Name == "Index" && isNamedType(t, "xreflect", "StructField") {
+									return "field", 0, true
+								}
+								if s.Sel.Name == "FieldIndex" && isNamedType(t, "xreflect", "Method") {
+									return "method", 0, true
+								}
+							}
+						}
+					}
+				case *ast.BinaryExpr:
+					if x.Op == token.ADD || x.Op == token.SUB {
+						for _, p := range [][2]ast.Expr{{x.X, x.Y}, {x.Y, x.X}} {
+							if tv, ok := info.Types[p[1]]; ok && tv.Value != nil {
+								if k, ok := constantInt(tv); ok {
+									if kind, b, ok := lin(p[0], depth+1); ok {
+										if x.Op == token.SUB {
+											if p[0] != x.X {
+												return "", 0, false
+											}
+											return kind, b - k, true
+										}
+										return kind, b + k, true
+									}
+								}
+							}
+						}
+					}
+				}
+				return "", 0, false
+			}
+			seq := 0
+			ast.Inspect(fd.Body, func(nd ast.Node) bool {
+				b, ok := nd.(*ast.BinaryExpr)
+				if !ok {
+					return true
+				}
+				switch b.Op {
+				case token.LSS, token.GTR, token.LEQ, token.GEQ, token.EQL, token.NEQ:
+				default:
+					return true
+				}
+				k1, o1, ok1 := lin(b.X, 0)
+				k2, o2, ok2 := lin(b.Y, 0)
+				if !ok1 || !ok2 || k1 == k2 {
+					return true
+				}
+				if k1 == "method" {
+					o1, o2 = o2, o1
+				}
+				n++
+				seq++
+				c.Ob(rule, fmt.Sprintf("%s/compare#%d", funcKey(pk, fd), seq), b, o2-o1 == 1, fmt.Sprintf("field depth len(Index)%+d is compared with method depth len(FieldIndex)%+d: the method side must be exactly one more (a direct field has len(Index) 1, a method of the type itself len(FieldIndex) 0)", o1, o2))
+				return true
+			})
+		}
+	}
+	if n == 0 {
+		c.Ob(rule, "fast.Comp.TryLookupFieldOrMethod", nil, false, "no comparison of a field depth with a method depth found: anchor missing")
+	}
+}
+
+// L6 — a type assertion to a concrete type compares two levels of type. Interpreted named types share the
+// reflect.Type of their underlying type (and emulated interfaces share one struct type), so equality of the
+// reflect types is necessary but not sufficient: wherever the dynamic reflect type of an asserted value
+// (rtypeof(v, t) / ValueType(v)) is compared with the asserted reflect type, the same condition also tests the
+// interpreter-level dynamic type t (by a method call on it: IdenticalTo, AssignableTo, Implements).
+func ruleTwoLevelTypeTest(c *Ctx, rule string) {
+	pk := c.P.Pkg("fast")
+	info := pk.TypesInfo
+	isRType := func(e ast.Expr) bool {
+		t := info.TypeOf(e)
+		if t == nil {
+			return false
+		}
+		n, ok := types.Unalias(t).(*types.Named)
+		return ok && n.Obj().Pkg() != nil && n.Obj().Pkg().Path() == "reflect" && n.Obj().Name() == "Type"
+	}
+	n := 0
+	for _, fd := range c.P.FuncsOf("fast") {
+		if fd.Body == nil || baseName(c.P.Fset, fd) != "type.go" {
+			continue
+		}
+		di := buildDefIndex(info, fd)
+		// dynamic reflect type: a call of rtypeof(v, t) or of a function named ValueType; t is rtypeof's second argument,
+		// or the xreflect.Type result of the two-result call that produced v
+		dynOf := func(e ast.Expr) (types.Object, bool) {
+			e = unparen(e)
+			if id := identOf(e); id != nil {
+				if o := info.Uses[id]; o != nil {
+					if d := di.single(o); d != nil {
+						e = unparen(d)
+					}
+				}
+			}
+			call, ok := e.(*ast.CallExpr)
+			if !ok {
+				return nil, false
+			}
+			fn := calleeOf(info, call)
+			if fn == nil {
+				return nil, false
+			}
+			switch {
+			case funcFullName(fn) == "fast.rtypeof" && len(call.Args) == 2:
+				return usedObj(info, call.Args[1]), true
+			case fn.Name() == "ValueType" && len(call.Args) == 1:
+				// the xr.Type defined together with v
+				vo := usedObj(info, call.Args[0])
+				var to types.Object
+				ast.Inspect(fd.Body, func(x ast.Node) bool {
+					as, ok := x.(*ast.AssignStmt)
+					if !ok || len(as.Lhs) != 2 || len(as.Rhs) != 1 {
+						return true
+					}
+					if lo := info.Defs[identOf(as.Lhs[0])]; lo != nil && lo == vo {
+						if id := identOf(as.Lhs[1]); id != nil && id.Name != "_" {
+							to = info.Defs[id]
+						}
+					}
+					return true
+				})
+				return to, true
+			}
+			return nil, false
+		}
+		seq := 0
+		ast.Inspect(fd.Body, func(nd ast.Node) bool {
+			ifs, ok := nd.(*ast.IfStmt)
+			if !ok {
+				return true
+			}
+			var dyn types.Object
+			found := false
+			ast.Inspect(ifs.Cond, func(x ast.Node) bool {
+				b, ok := x.(*ast.BinaryExpr)
+				if !ok || (b.Op != token.NEQ && b.Op != token.EQL) || !isRType(b.X) || !isRType(b.Y) {
+					return true
+				}
+				for _, side := range []ast.Expr{b.X, b.Y} {
+					if t, ok := dynOf(side); ok {
+						found = true
+						if t != nil {
+							dyn = t
+						}
+					}
+				}
+				return true
+			})
+			if !found {
+				return true
+			}
+			n++
+			seq++
+			tested := false
+			if dyn != nil {
+				inspectCalls(ifs.Cond, func(call *ast.CallExpr) {
+					if s, ok := unparen(call.Fun).(*ast.SelectorExpr); ok && usedObj(info, s.X) == dyn {
+						switch s.Sel.Name {
+						case "IdenticalTo", "AssignableTo", "Implements":
+							tested = true
+						}
+					}
+				})
+			}
+			c.Ob(rule, fmt.Sprintf("%s/test#%d", funcKey(pk, fd), seq), ifs, tested, "the dynamic reflect type of the asserted value is compared with the asserted reflect type: the same condition must also test the interpreter-level dynamic type (types declared by interpreted code share reflect types)")
+			return true
+		})
+	}
+	if n < 8 {
+		c.Ob(rule, "fast/type.go", nil, false, fmt.Sprintf("%d two-level tests found, 8 confirmed by reading (TypeAssert1, TypeAssert2, typeassert)", n))
+	}
+}
+
+func constantInt(tv types.TypeAndValue) (int, bool) {
+	if tv.Value == nil || tv.Value.Kind() != constant.Int {
+		return 0, false
+	}
+	v, ok := constant.Int64Val(tv.Value)
+	return int(v), ok
 }
